@@ -630,7 +630,24 @@ func (state *RuntimeState) DeleteSigned(username string, dataType int) error {
 	if err != nil {
 		return err
 	}
+	state.applySignedChangeToCache(deleteSignedUserDataStmt["sqlite"],
+		username, dataType)
 	return nil
+}
+
+// applySignedChangeToCache repeats a change of the signed user data that has
+// just been committed in the primary DB on the local cache DB, so that the
+// cache does not keep answering with a record the primary has already
+// replaced or dropped until the next full copy. Best effort: the periodic
+// copy repairs anything missed here.
+func (state *RuntimeState) applySignedChangeToCache(stmtText string,
+	args ...interface{}) {
+	if state.cacheDB == nil || state.cacheDB == state.db {
+		return
+	}
+	if _, err := state.cacheDB.Exec(stmtText, args...); err != nil {
+		logger.Printf("cache DB update failed: err='%s'", err)
+	}
 }
 
 type getSignedData struct {
@@ -746,8 +763,9 @@ func (state *RuntimeState) UpsertSigned(username string, dataType int,
 		return err
 	}
 	defer stmt.Close()
+	updateEpoch := time.Now().Unix()
 	_, err = stmt.Exec(username, dataType, stringData, expirationEpoch,
-		time.Now().Unix())
+		updateEpoch)
 	if err != nil {
 		return err
 	}
@@ -756,5 +774,7 @@ func (state *RuntimeState) UpsertSigned(username string, dataType int,
 		return err
 	}
 	metricLogExternalServiceDuration("storage-save", time.Since(start))
+	state.applySignedChangeToCache(saveSignedUserDataStmt["sqlite"],
+		username, dataType, stringData, expirationEpoch, updateEpoch)
 	return nil
 }
